@@ -24,7 +24,7 @@ PY
   if ! (cd "$T/repo" && git apply "$OLDPWD/$d/patch.diff" 2>/dev/null); then
     echo "CANARY-SKIPPED $id: the change no longer applies to this tree"; skip=$((skip+1)); continue
   fi
-  out=$(KBV_WORK="$T/work" bin/kbv check -prop "$PROP" -repo "$T/repo" -no-evidence -no-replay 2>&1); rc=$?
+  out=$(KBV_WORK="$T/work" bin/kbv check -prop "$PROP" -repo "$T/repo" -no-evidence -no-replay -no-retry 2>&1); rc=$?
   if [ $rc -eq 1 ]; then
     echo "CANARY-DETECTED $id: $(echo "$out" | grep -m1 '^FAILED' | cut -c8-150)"; det=$((det+1))
   else
